@@ -255,12 +255,7 @@ theorem safe_prefix_collision_classes : ¬ SafeNamesInjectiveOnSlugs Env.ascii U
 /-- `ClassUtils.unique_name` always terminates (the model's fuel `|reserved|+1` is never
 exhausted) and the slug of its result is not reserved — for every name and reserved set. -/
 theorem unique_name_fresh (name : Str) (R : List Str) :
-    ∃ n, uniqueName name R = some n ∧ R.contains (alnum n) = false := by
-  unfold uniqueName
-  cases hc : R.contains (alnum name)
-  · exact ⟨name, by simp, hc⟩
-  · obtain ⟨k, hk, _, hfree⟩ := firstFree_spec name R 1
-    exact ⟨indexed name k, by simp [hk], hfree⟩
+    ∃ n, uniqueName name R = some n ∧ R.contains (alnum n) = false := uniqueName_fresh name R
 
 /-- `RenameDuplicateClasses.next_qname` terminates with an index `k ≥ 1` whose comparison key
 (`alnum` of the new name, or of the new qname) is not reserved. -/
@@ -312,6 +307,33 @@ theorem preference_rename_same_slug :
     ((renameDuplicateAttrs [⟨"Element".toList, "a".toList, none⟩,
         ⟨"Element".toList, "a".toList, some "http://www".toList⟩]).map Attr.slug) =
       ["a".toList, "a".toList] := by decide +kernel
+
+/-- the provable part: when no slug occurs exactly twice among non-enumeration attrs (so
+nothing is renamed "by preference"), all slugs are pairwise different afterwards — for every
+attr list, by an invariant over the groups in processing order. -/
+theorem slugs_distinct_after_rename_partial (attrs : List Attr) (h : pairFree attrs = true) :
+    ((renameDuplicateAttrs attrs).map Attr.slug).Nodup := rename_pairFree_nodup attrs h
+
+example : pairFree [⟨"Element".toList, "a".toList, none⟩, ⟨"Attribute".toList, "A".toList, none⟩,
+    ⟨"Element".toList, "a_".toList, none⟩, ⟨"Element".toList, "a_1".toList, none⟩,
+    ⟨"Enumeration".toList, "b".toList, none⟩, ⟨"Enumeration".toList, "B".toList, none⟩] = true := by
+  decide +kernel
+
+/-- … and then the generated field names are pairwise different too, provided every renamed
+name passes `safe_name` unchanged (word-splitting cases). -/
+theorem field_names_distinct_partial (e : Env) (u : UEnv) (cv : Conv) (hc : cv.case ≠ .original)
+    (attrs : List Attr) (h : pairFree attrs = true)
+    (hplain : ∀ a ∈ renameDuplicateAttrs attrs, ∃ r, safeNameStep e u cv a.name = .done r) :
+    ((renameDuplicateAttrs attrs).map (fun a => safeNameStep e u cv a.name)).Nodup := by
+  have hs := rename_pairFree_nodup attrs h
+  rw [List.Nodup, List.pairwise_map] at hs ⊢
+  apply hs.imp_of_mem
+  intro a b ha hb hne heq
+  obtain ⟨r1, h1⟩ := hplain a ha
+  obtain ⟨r2, h2⟩ := hplain b hb
+  rw [h1, h2] at heq
+  cases heq
+  exact plain_names_distinct e u cv hc a.name b.name r1 r1 h1 h2 hne rfl
 
 def ClassKeysDistinctAfterRename : Prop :=
   ∀ cs : List Cls, (∀ c ∈ cs, c.location = "l".toList) →
